@@ -118,17 +118,29 @@ def monotonicity_oracle(ctx, named_calc):
             rest = [c for c in classes if c[0] != 'eneT2']
             classes = keep + rng.sample(rest, max(0, 6 - len(keep)))
         for which, j in classes:
-            amt = rng.choice([1e-3, 0.1, 0.5, 2.0]) if ctx.quick else rng.choice([1e-6, 1e-3, 0.1, 0.5, 2.0, 10.0, 40.0])
+            # omega2 barriers may be lowered without limit (large-omega2 algorithm); omega0/omega1 rates beyond ~1e9 times the
+            # others are outside double precision (no property clause covers them) and the Green-function calculator refuses
+            # diffusivity anisotropies beyond ~1e7 ("Problem isotropizing D?")
+            if ctx.quick: amt = rng.choice([1e-3, 0.1, 0.5, 2.0])
+            elif which == 'eneT2': amt = rng.choice([1e-6, 1e-3, 0.1, 0.5, 2.0, 10.0, 40.0])
+            elif which == 'eneT1': amt = rng.choice([1e-6, 1e-3, 0.1, 0.5, 2.0, 10.0, 20.0])
+            else: amt = rng.choice([1e-6, 1e-3, 0.1, 0.5, 2.0, 6.0])
             d1 = {k: np.array(v, copy=True) for k, v in d.items()}
             d1[which][j] -= amt
-            L1 = lij(calc, d1)
+            try:
+                L1 = lij(calc, d1)
+            except ArithmeticError as e:
+                if 'isotropizing' in str(e):
+                    ctx.count('vacancy:refused-extreme-anisotropy'); continue
+                raise
             ctx.case(('vac', name, t, which, j, amt), nontrivial=True)
             ctx.count('vacancy:%s:%s' % (name, which) + (':large-om2' if large else ''))
             for idx, lab in ((0, 'L0vv'), (1, 'Lss')):
                 diff = L1[idx] - L0[idx]
                 sc = max(abs(L1[idx]).max(), abs(L0[idx]).max(), 1e-300)
                 w = np.linalg.eigvalsh(0.5 * (diff + diff.T))
-                if w.min() < -1e-7 * sc:
+                cond = math.exp(min(amt, 40.0)) if which != 'eneT2' else 1.0     # conditioning of a very fast omega0/omega1 class
+                if w.min() < -(1e-7 + 1e-15 * cond) * sc:
                     os_tag = 'originstates' if len(calc.OSindices) > 0 else 'no-originstates'
                     ctx.violation('vacancy-decreases:%s:%s:%s:%s' % (lab, os_tag, which, name),
                                   '%s decreased (min eigenvalue of change %.3g, scale %.3g) when %s[%d] was lowered by %g on %s'
